@@ -92,6 +92,13 @@ GroupAxioms(a, b, c) ==
     /\ DAdd(a, DZero) = a
     /\ DAdd(a, DNeg(a)) = DZero
 ScaleDistributes(a, b, k) == DAdd(DScale(a, k), DScale(b, k)) = DScale(DAdd(a, b), k)
+\* the quotient of two month-free durations (an integer, truncated toward zero) undoes scaling: (a * k) / a = k.
+\* (Durations with a calendar part have no quotient in general; the code's own comment says as much, and a pure
+\* month count divided by another divides 0 ns by 0 ns - observed, outside the listed properties.)
+DurNs(a) == (a[2] * SECS_PER_DAY + a[3]) * NS + a[4]             \* small durations only (TLC integers)
+DDivSmall(a, b) == LET q == DurNs(a) \div DurNs(b) IN IF DurNs(a) % DurNs(b) = 0 \/ (DurNs(a) >= 0) = (DurNs(b) > 0) THEN q ELSE q + 1
+DivUndoesScale(a, k) ==
+    (~IsNat(a) /\ a[1] = 0 /\ a[2] = 0 /\ a[3] = 0 /\ a[4] # 0) => DDivSmall(DScale(a, k), a) = k
 
 (* ---- date-time arithmetic --------------------------------------------------------------- *)
 
